@@ -83,7 +83,7 @@ impl<'a> Selector<'a> {
         let mut poses = self.find_positions(root, None, &self.json_path.paths)?;
 
         if self.json_path.is_predicate() {
-            Self::build_predicate_result(&mut poses, data)?;
+            Self::build_predicate_result(&mut poses, data, offsets)?;
             return Ok(());
         }
 
@@ -357,6 +357,7 @@ impl<'a> Selector<'a> {
     fn build_predicate_result(
         poses: &mut VecDeque<Position>,
         data: &mut Vec<u8>,
+        offsets: &mut Vec<u64>,
     ) -> Result<(), Error> {
         let jentry = match poses.pop_front() {
             Some(_) => TRUE_TAG,
@@ -364,6 +365,7 @@ impl<'a> Selector<'a> {
         };
         data.write_u32::<BigEndian>(SCALAR_CONTAINER_TAG)?;
         data.write_u32::<BigEndian>(jentry)?;
+        offsets.push(data.len() as u64);
         Ok(())
     }
 
